@@ -381,6 +381,10 @@ impl<'a> Runtime<'a> {
                         span: err.span,
                         message: ArenaCow::Borrowed("Index value don pass array length"),
                     }],
+                    RuntimeErrorKind::TypeMismatch if err.name.is_empty() => vec![Label {
+                        span: err.span,
+                        message: ArenaCow::Borrowed("Dis value type no fit dis operation"),
+                    }],
                     RuntimeErrorKind::TypeMismatch => vec![Label {
                         span: err.span,
                         message: ArenaCow::Owned(arena_format!(
@@ -622,7 +626,7 @@ impl<'a> Runtime<'a> {
                     match r {
                         Value::Bool(b) => Ok(Value::Bool(b)),
                         Value::Null => Ok(Value::Bool(false)),
-                        _ => unreachable!("Semantic analysis guarantees boolean expressions"),
+                        _ => Err(RuntimeError::new(RuntimeErrorKind::TypeMismatch, *span)),
                     }
                 }
                 BinaryOp::Or => {
@@ -634,7 +638,7 @@ impl<'a> Runtime<'a> {
                     match r {
                         Value::Bool(b) => Ok(Value::Bool(b)),
                         Value::Null => Ok(Value::Bool(false)),
-                        _ => unreachable!("Semantic analysis guarantees boolean expressions"),
+                        _ => Err(RuntimeError::new(RuntimeErrorKind::TypeMismatch, *span)),
                     }
                 }
                 _ => {
@@ -669,10 +673,9 @@ impl<'a> Runtime<'a> {
                             BinaryOp::Eq => Ok(Value::Bool(ls == rs)),
                             BinaryOp::Gt => Ok(Value::Bool(ls > rs)),
                             BinaryOp::Lt => Ok(Value::Bool(ls < rs)),
-                            _ => unreachable!("Semantic analysis guarantees valid string ops"),
+                            _ => Err(RuntimeError::new(RuntimeErrorKind::TypeMismatch, *span)),
                         },
-                        (Value::Str(ls), Value::Number(n)) => {
-                            assert!(matches!(op, BinaryOp::Add));
+                        (Value::Str(ls), Value::Number(n)) if matches!(op, BinaryOp::Add) => {
                             let mut writer = LenWriter(0);
                             write!(writer, "{n}").unwrap();
                             let mut s =
@@ -681,8 +684,7 @@ impl<'a> Runtime<'a> {
                             write!(s, "{n}").unwrap();
                             Ok(Value::Str(ArenaCow::Owned(s)))
                         }
-                        (Value::Number(n), Value::Str(rs)) => {
-                            assert!(matches!(op, BinaryOp::Add));
+                        (Value::Number(n), Value::Str(rs)) if matches!(op, BinaryOp::Add) => {
                             let mut writer = LenWriter(0);
                             write!(writer, "{n}").unwrap();
                             let mut s =
@@ -695,31 +697,31 @@ impl<'a> Runtime<'a> {
                             BinaryOp::Eq => Ok(Value::Bool(lv == rv)),
                             BinaryOp::Gt => Ok(Value::Bool(lv && !rv)), // false < true
                             BinaryOp::Lt => Ok(Value::Bool(!lv & rv)),
-                            _ => unreachable!("Semantic analysis guarantees valid bool ops"),
+                            _ => Err(RuntimeError::new(RuntimeErrorKind::TypeMismatch, *span)),
                         },
                         (Value::Null, Value::Null) => match op {
                             BinaryOp::Eq => Ok(Value::Bool(true)),
                             BinaryOp::Gt | BinaryOp::Lt => Ok(Value::Bool(false)),
-                            _ => unreachable!("Semantic analysis guarantees valid null ops"),
+                            _ => Err(RuntimeError::new(RuntimeErrorKind::TypeMismatch, *span)),
                         },
                         (Value::Null, ..) | (.., Value::Null) => match op {
                             BinaryOp::Eq | BinaryOp::Gt | BinaryOp::Lt => Ok(Value::Bool(false)),
-                            _ => unreachable!("Semantic analysis guarantees valid null ops"),
+                            _ => Err(RuntimeError::new(RuntimeErrorKind::TypeMismatch, *span)),
                         },
-                        _ => {
-                            unreachable!("Semantic analysis guarantees matching operand types")
-                        }
+                        // Operands whose types are only known at run time (parameters,
+                        // array elements) can still disagree here.
+                        _ => Err(RuntimeError::new(RuntimeErrorKind::TypeMismatch, *span)),
                     }
                 }
             },
 
-            Expr::Unary { op, expr, .. } => {
+            Expr::Unary { op, expr, span } => {
                 let v = self.eval_expr(expr)?;
                 match (op, v) {
                     (UnaryOp::Not, Value::Bool(b)) => Ok(Value::Bool(!b)),
                     (UnaryOp::Not, Value::Null) => Ok(Value::Bool(true)),
                     (UnaryOp::Minus, Value::Number(n)) => Ok(Value::Number(-n)),
-                    _ => unreachable!("Semantic analysis guarantees valid unary expressions"),
+                    _ => Err(RuntimeError::new(RuntimeErrorKind::TypeMismatch, *span)),
                 }
             }
             Expr::Array { elements, .. } => {
@@ -730,11 +732,11 @@ impl<'a> Runtime<'a> {
                 }
                 Ok(Value::Array(values))
             }
-            Expr::Index { array, index, index_span, .. } => {
+            Expr::Index { array, index, index_span, span } => {
                 let array_value = self.eval_expr(array)?;
                 let index_value = self.eval_expr(index)?;
                 let Value::Array(mut items) = array_value else {
-                    unreachable!("Semantic analysis guarantees only arrays can be indexed")
+                    return Err(RuntimeError::new(RuntimeErrorKind::TypeMismatch, *span));
                 };
 
                 let Value::Number(index_number) = index_value else {
